@@ -182,14 +182,15 @@ func (t *textReader) nextBeforeFieldName() (bool, error) {
 			}
 		}
 
-		if tok == tokenSymbolQuoted {
-			t.fieldName = &SymbolToken{Text: &val, LocalSID: SymbolIDUnknown}
-		} else {
+		if tok == tokenSymbol {
+			// Only an unquoted identifier of the form $n is a symbol ID reference.
 			st, err := newSymbolToken(t.SymbolTable(), val)
 			if err != nil {
 				return false, err
 			}
 			t.fieldName = &st
+		} else {
+			t.fieldName = &SymbolToken{Text: &val, LocalSID: SymbolIDUnknown}
 		}
 
 		// Skip over the following colon.
